@@ -114,3 +114,6 @@ class DAGNodeStorage:
         for node_id in node_ids:
             self.hide_processed_node(node_id)
             self.hide_node_result(node_id)
+            # The decision of a switch belongs to the execution that made it. Until the switch is resolved again,
+            # its consumers must not be checked against the case that was selected last time.
+            self.switch_results.hide(node_id)
